@@ -7,6 +7,19 @@ package rsec16
 
 import "github.com/akalin/gopar/gf2p16"
 
+// specGenFrom(i, k, acc), with acc = 2^i (the field element x raised to i, obtained by repeated
+// doubling): the k-th (0-based) power 2^e, e >= i, whose exponent e is not divisible by 3, 5, 17
+// or 257 -- the constants the PAR2 specification assigns to the input slices.
+func specGenFrom(i, k int, acc gf2p16.T) gf2p16.T {
+	if i%3 != 0 && i%5 != 0 && i%17 != 0 && i%257 != 0 {
+		if k <= 0 {
+			return acc
+		}
+		return specGenFrom(i+1, k-1, gf2p16.SpecXtime(acc))
+	}
+	return specGenFrom(i+1, k, gf2p16.SpecXtime(acc))
+}
+
 // specFn2: the type of the logical functions of the matrix-application contracts.
 type specFn2 = func(int, int) gf2p16.T
 
@@ -356,9 +369,16 @@ func specDotL(cf specFn2, wf specFn2, i, k, n int) gf2p16.T {
 //@ frozen generators
 //@ pred gensOK = len(generators) == 32768
 //@ lemma gensLen
-//@   props C07 C12
+//@   props C07 C12 C05
 //@   kind eval
 //@   ensures gensOK
+
+// C05: the table holds exactly the specification's constants, in order (a closed fact about the
+// initialised package, decided by evaluating all 32768 entries against specGenFrom).
+//@ lemma gensValues
+//@   props C05 C07
+//@   kind eval
+//@   ensures forall(k, 0, 32768, generators[k] == specGenFrom(0, k, 1))
 
 //@ lemma mulSmall
 //@   props C07 C12
@@ -377,14 +397,25 @@ func specDotL(cf specFn2, wf specFn2, i, k, n int) gf2p16.T {
 //@   ensures matOK(result) && result.rows == rows && result.columns == columns
 //@   use mulSmall(rows, columns)
 
+// C05/C07: entry (a, b) of the Vandermonde matrix is alpha(b)^a (field power, specGfpow of C08).
 //@ func newVandermondeMatrix
-//@   props C07
+//@   props C07 C05
 //@   note pure-param alphaColumnFunc
+//@   inst-counters
 //@   requires rows <= 65535 && columns <= 65535
 //@   panics rows <= 0 || columns <= 0
 //@   modifies nothing
 //@   ensures matOK(result) && result.rows == rows && result.columns == columns
+//@   ensures forall(a, 0, rows, forall(b, 0, columns, result.elements[mathint(a)*mathint(columns)+b] == gf2p16.SpecGfpow(alphaColumnFunc(b), a)))
 //@   use mulSmall(rows, columns)
+
+// Element function of the Vandermonde matrix (called by NewMatrixFromFunction with 0 <= i < rows, 0 <= j < columns).
+//@ func newVandermondeMatrix$1
+//@   props C07 C05
+//@   mode bv
+//@   pure
+//@   requires 0 <= i && i < 65536 && 0 <= j
+//@   ensures result == gf2p16.SpecGfpow(alphaColumnFunc(j), i)
 
 //@ func newCauchyParityMatrix
 //@   props C07
@@ -392,11 +423,16 @@ func specDotL(cf specFn2, wf specFn2, i, k, n int) gf2p16.T {
 //@   modifies nothing
 //@   ensures matOK(result) && result.rows == parityShards && result.columns == dataShards
 
+// C05: the PAR2 parity matrix: row e, column i holds generators[i]^e (the specification's constant
+// c_i raised to the exponent of the recovery block).
 //@ func newVandermondeParityMatrix
-//@   props C07
-//@   requires dataShards > 0 && parityShards > 0 && dataShards <= 65535 && parityShards <= 65535
+//@   props C07 C05
+//@   global gensOK
+//@   inst-counters
+//@   requires dataShards > 0 && parityShards > 0 && dataShards <= 32768 && parityShards <= 65535
 //@   modifies nothing
 //@   ensures matOK(result) && result.rows == parityShards && result.columns == dataShards
+//@   ensures forall(a, 0, parityShards, forall(b, 0, dataShards, result.elements[mathint(a)*mathint(dataShards)+b] == gf2p16.SpecGfpow(generators[b], a)))
 
 // The sum dataShards+parityShards is computed in 64-bit arithmetic by the real code; the
 // precondition excludes the wrap-around (two counts near 2^63), see DESIGN.md observations.
@@ -409,15 +445,17 @@ func specDotL(cf specFn2, wf specFn2, i, k, n int) gf2p16.T {
 //@   ensures iff(mathint(dataShards) + mathint(parityShards) <= 65535, result1 == nil)
 
 //@ func NewCoderPAR2Vandermonde
-//@   props C07 C12
+//@   props C07 C12 C05
 //@   global gensOK
+//@   ensures implies(result1 == nil, forall(a, 0, parityShards, forall(b, 0, dataShards, result0.parityMatrix.elements[mathint(a)*mathint(dataShards)+b] == gf2p16.SpecGfpow(generators[b], a))))
 //@   panics dataShards <= 0 || parityShards <= 0 || numGoroutines <= 0
 //@   modifies nothing
 //@   ensures implies(result1 == nil, coderOK(result0) && result0.dataShards == dataShards && result0.parityShards == parityShards && result0.numGoroutines == numGoroutines)
 
 // Element functions (called only by NewMatrixFromFunction with 0 <= i < rows, 0 <= j < columns).
 //@ func newVandermondeParityMatrix$1
-//@   props C07
+//@   props C07 C05
 //@   global gensOK
+//@   pure
 //@   requires 0 <= i && i < 32768
-//@   modifies nothing
+//@   ensures result == generators[i]
